@@ -1255,9 +1255,9 @@ REGISTRY["C10"] = check_c10_full
 def alloc_proof():
     """C04, issuing part: SeidAlloc.tla - inductive invariant with Apalache (histories of any length, capacity 6) and the
     same invariants with TLC on all reachable states (capacity 5). A failure here is a defect of the specification."""
-    d = vlib.stage_spec(["SeidAlloc.tla", "SeidAllocInd.tla", "MC_SeidAlloc.tla"], "alloc")
+    d = vlib.stage_spec(["SeidAlloc.tla", "SeidAllocInd.tla", "MC_SeidAlloc.tla", "SeidAllocProof.tla"], "alloc")
     with open(os.path.join(d, "MC.cfg"), "w") as fh:
-        fh.write("SPECIFICATION Spec\nCONSTANT N = 5\nINVARIANT IndInv\nPROPERTY IssueOkProp\nCHECK_DEADLOCK FALSE\n")
+        fh.write("SPECIFICATION Spec\nCONSTANT N = 5\nINVARIANT IndInv\nINVARIANT Bounded\nPROPERTY IssueOkProp\nCHECK_DEADLOCK FALSE\n")
     p = subprocess.run(["tlc", "-workers", "4", "-metadir", os.path.join(d, "md"), "-config", "MC.cfg", "MC_SeidAlloc.tla"], cwd=d, env=vlib._tlc_env(),
                        stdout=subprocess.PIPE, stderr=subprocess.STDOUT, text=True, timeout=900)
     m = re.search(r"(\d+) states generated, (\d+) distinct states found", p.stdout)
@@ -1265,7 +1265,7 @@ def alloc_proof():
         raise Infra("TLC on SeidAlloc failed:\n" + p.stdout[-2500:])
     res = {"tlc_distinct": int(m.group(2)), "tlc_generated": int(m.group(1)), "apalache": []}
     obligations = [("base: Init => IndInv", "Init", "IndInv", 0), ("step: IndInv /\\ Next => IndInv'", "IndInit", "IndInv", 1),
-                   ("action: IndInv /\\ Next => IssueOk", "IndInit", "IssueOk", 1)]
+                   ("action: IndInv /\\ Next => IssueOk", "IndInit", "IssueOk", 1), ("consequence: IndInv => Bounded", "IndInit", "Bounded", 0)]
 
     def one(ob):
         name, init, inv, length = ob
@@ -1273,13 +1273,22 @@ def alloc_proof():
         q = subprocess.run(["apalache-mc", "check", "--out-dir=" + out, "--cinit=CInit", "--init=" + init, "--inv=" + inv, "--length=%d" % length,
                             "SeidAllocInd.tla"], cwd=d, stdout=subprocess.PIPE, stderr=subprocess.STDOUT, text=True, timeout=900)
         return name, q.returncode, q.stdout[-1500:]
-    with cf.ThreadPoolExecutor(3) as ex:
+    def proof():
+        q = subprocess.run(["tlapm", "--threads", "4", "--cache-dir", os.path.join(d, "tlacache"), "SeidAllocProof.tla"], cwd=d,
+                           stdout=subprocess.PIPE, stderr=subprocess.STDOUT, text=True, timeout=1500)
+        m = re.search(r"All (\d+) obligations proved", q.stdout)
+        if q.returncode != 0 or not m:
+            raise Infra("tlapm did not prove SeidAllocProof.tla:\n" + q.stdout[-2500:])
+        return int(m.group(1))
+    with cf.ThreadPoolExecutor(5) as ex:
+        fut = ex.submit(proof)
         for name, rc, tail in ex.map(one, obligations):
             if rc != 0 or "EXITCODE: OK" not in tail:
                 raise Infra("Apalache did not discharge '%s' for SeidAlloc:\n%s" % (name, tail))
             res["apalache"].append(name)
-    log("SeidAlloc: inductive invariant discharged by Apalache (%d obligations, capacity 6, histories of any length); TLC: %d distinct states (capacity 5)" % (
-        len(res["apalache"]), res["tlc_distinct"]))
+        res["tlaps_obligations_proved"] = fut.result()
+    log("SeidAlloc: TLAPS proved IndInv inductive and IssueOk for every capacity (%d obligations); Apalache discharged %d obligations (capacity 6); TLC: %d distinct states (capacity 5)" % (
+        res["tlaps_obligations_proved"], len(res["apalache"]), res["tlc_distinct"]))
     return res
 
 
